@@ -20,7 +20,7 @@ PATHS = ["", "/", "/a/b", "/a/../b", "/a/./b/", "/%7Euser/x%20y", "/a b", "/Ã©tÃ
 QUERIES = ["", "?", "?a=1", "?a=1&b=2", "?b=2&a=1&b=3", "?a", "?a=&b", "?a=1&a=1", "?q=x+y%20z", "?k=%26%3D", "?a=1;b=2", "?%zz=1&ok=2", "?=v", "?&&a=1&&",
            "?u=http://x.example/?y=1&z=2", "?a=Ã©", "?a=1&b=2&c=3&d=4&e=5"]
 FRAGS = ["", "", "#", "#frag", "#a?b=c"]
-PARENTS = ["http://parent.example/dir/page.html", "https://parent.example/dir/sub/", "https://p.example", "http://p.example/a/b/c?x=1#f"]
+PARENTS = ["http://parent.example/dir/page.html", "https://parent.example/dir/sub/", "https://p.example", "http://p.example/a/b/c?x=1&y=2"]
 RELS = ["/abs/path", "../up", "./here", "x/y.png", "?only=query", "#onlyfrag", "", "//cdn.example/lib.js", "../../../../too/far", "a/../../b", "./", "..",
         "/a?b=2&a=1", "img.png?v=1&v=2"]
 
@@ -92,6 +92,65 @@ def norm_stream(ctx, n):
     ctx.sample({"raw": cases[5][0], "parent": cases[5][1], "impl": impl[5][:200]})
 
 
+def py_pairs(q):
+    """independent reference: the well-formed (key, value) pairs of a raw query, in order"""
+    from urllib.parse import unquote_to_bytes
+    import re
+    out = []
+    for seg in q.split(b"&"):
+        if not seg or b";" in seg:
+            continue
+        k, _, v = seg.partition(b"=")
+        if re.search(rb"%(?![0-9A-Fa-f]{2})", k) or re.search(rb"%(?![0-9A-Fa-f]{2})", v):
+            continue
+        out.append((unquote_to_bytes(k.replace(b"+", b" ")), unquote_to_bytes(v.replace(b"+", b" "))))
+    return out
+
+
+def metamorphic(ctx, n):
+    """(a) an empty or non-empty fragment never changes the canonical URL; (b) references normalised in
+    sequence against one shared parent object give what each gives alone, and leave the parent unchanged"""
+    r = ctx.rng
+    # (the empty reference itself is rejected by the normaliser while "#" alone resolves to the parent:
+    #  nothing in the property speaks about it, so it is not part of this oracle)
+    bases = [(u, p) for (u, p) in (gen_url(r) for _ in range(n)) if "#" not in u and u.strip(" \"'") != "" and u == u.strip(" \"'")]
+    bases += [("x.html", PARENTS[0]), ("/top", PARENTS[1]), ("a/b?c=1", PARENTS[3])]
+    lines = []
+    for u, p in bases:
+        for suffix in ("", "#", "#frag"):
+            lines.append(json.dumps({"op": "norm", "raw": u + suffix, "parent": p}))
+    rc, impl, err = core.run_impl("url", lines, timeout=600)
+    for i, (u, p) in enumerate(bases):
+        a0, a1, a2 = impl[3 * i:3 * i + 3]
+        ctx.case("frag" + u + "|" + p, a0.startswith("ok"))
+        c = [parse_line(x).get("canon") if x.startswith("ok") else x for x in (a0, a1, a2)]
+        if not (c[0] == c[1] == c[2]):
+            show = [unhex(x) if not x.startswith("err") else x for x in c]
+            ctx.violation("a fragment changes the canonical URL of %r (parent %r): %s" % (u, p, show), {"domain": "url", "raw": u, "parent": p, "fragment_variants": show})
+    seqs = []
+    for _ in range(max(20, n // 10)):
+        p = r.choice(PARENTS)
+        seqs.append((p, [r.choice(RELS) for _ in range(r.randrange(2, 6))]))
+    seqs.append((PARENTS[3], ["/abs/path", "x/y.png", "?only=query", "../up"]))
+    lines = [json.dumps({"op": "normseq", "parent": p, "raws": raws}) for p, raws in seqs]
+    single = [json.dumps({"op": "norm", "raw": raw, "parent": p}) for p, raws in seqs for raw in raws]
+    rc, impl, err = core.run_impl("url", lines + single, timeout=600)
+    k = len(lines)
+    for (p, raws), a in zip(seqs, impl[:len(lines)]):
+        d = parse_line("x " + a)
+        got = d.get("seq", "").split(",")
+        alone = []
+        for raw in raws:
+            x = impl[k]; k += 1
+            alone.append(parse_line(x).get("canon") if x.startswith("ok") else "!")
+        ctx.case("seq" + p + json.dumps(raws), True)
+        ctx.count("shared-parent-sequences")
+        if got != alone or d.get("parent-before") != d.get("parent-after"):
+            ctx.violation("normalisation is not a pure function: against a shared parent %r the references %s give %s in sequence but %s alone; parent %s -> %s" %
+                          (p, raws, [unhex(x) if x != "!" else x for x in got], [unhex(x) if x != "!" else x for x in alone],
+                           unhex(d.get("parent-before", "")), unhex(d.get("parent-after", ""))), {"domain": "url", "parent": p, "raws": raws, "impl": a})
+
+
 def rand_query(r):
     parts = []
     for _ in range(r.randrange(0, 6)):
@@ -110,7 +169,8 @@ def rand_query(r):
 
 def query_stream(ctx, n):
     r = ctx.rng
-    qs = [b"a=1&b=2&c=3", b"b=2&a=1&b=3", b"a", b"a=%zz&b=1", b"a=1;b=2&c=3", b"", b"&&", b"=", b"k=%26&k=+"] + [rand_query(r) for _ in range(n)]
+    qs = [b"a=1&b=2&c=3", b"b=2&a=1&b=3", b"a", b"a=%zz&b=1", b"a=1;b=2&c=3", b"", b"&&", b"=", b"k=%26&k=+", b"a=1&b=2&a=3&crop=64:64;smart",
+          b"x=1&y;z=2&w=3"] + [rand_query(r) for _ in range(n)]
     lines = [json.dumps({"op": "query", "qhex": q.hex()}) for q in qs]
     impl, model = ctx.pair("url", lines)
     for q, a, b in zip(qs, impl, model):
@@ -120,6 +180,11 @@ def query_stream(ctx, n):
         rep = {"domain": "url", "qhex": q.hex(), "query": q.decode("utf-8", "replace"), "impl": a, "model": b}
         if da["det"] != "1":
             ctx.violation("the canonical query of %r differs between evaluations (%s different strings)" % (q.decode("utf-8", "replace"), da["det"]), rep)
+            continue
+        # independent reference: the well-formed pairs survive with their order and multiplicity
+        if py_pairs(bytes.fromhex(da["q"])) != py_pairs(q):
+            ctx.violation("query parameters lost, reordered or altered: %r -> %r (pairs %s -> %s)" % (q.decode("utf-8", "replace"),
+                          bytes.fromhex(da["q"]).decode("utf-8", "replace"), py_pairs(q), py_pairs(bytes.fromhex(da["q"]))), rep)
             continue
         if da["q"] != db["q"]:
             ctx.disagree({"qhex": q.hex(), "query": q.decode("utf-8", "replace")}, bytes.fromhex(da["q"]).decode("utf-8", "replace"),
@@ -148,6 +213,7 @@ def run(ctx):
     norm_stream(ctx, 60000 if t else 2500)
     query_stream(ctx, 40000 if t else 1500)
     escape_stream(ctx, 20000 if t else 800)
+    metamorphic(ctx, 4000 if t else 300)
     ctx.assumptions += ["URL parsing and reference resolution (ada WHATWG parser, net/url, idna) are oracles: only their outputs are checked "
                         "(shape, determinism, idempotence); the byte-level escaping and query re-encoding are modelled and proved"]
 
